@@ -301,6 +301,10 @@ impl<S: futures_core::Stream + Unpin> futures_core::Stream for ProgressBarIter<S
         }
         item
     }
+
+    fn size_hint(&self) -> (usize, Option<usize>) {
+        self.it.size_hint()
+    }
 }
 
 impl<W: io::Write> io::Write for ProgressBarIter<W> {
